@@ -50,7 +50,7 @@ P = {
          'string-template extraction + algebraic comparison'),
  'C15': ('DESIGN.md 3/C15', 'symbolic array shapes in extract_data, cost formula, set-up ordering',
          'Decides axis alignment of the data array (symbolic shapes), name alignment of measurement indices, cost formula shape, and that per-trajectory set-up and default reset dominate each simulation.',
-         'symbolic shape analysis + must-pass-through'),
+         'symbolic shape analysis + must-pass-through; partial evaluation of the set-up methods on sample conditions (conditions handed on entry for entry)'),
  'C16': ('DESIGN.md 3/C16', 'density identity (sympy) and support rejection (interval x NaN abstract interpretation)',
          'Decides for the seven families that the returned expression is the log of the textbook density and that no out-of-support path can return a finite value.',
          'formula comparison + abstract interpretation of scalar functions; taint analysis (the caller\'s prior is never mutated); loop-carried-variable analysis of check_prior'),
